@@ -290,3 +290,204 @@ pub fn meta_receivers() -> BTreeMap<&'static str, RecvDesc> {
     ));
     m
 }
+
+// ------------------------------------------------------------------------------------------------
+// element-level receivers (FromDeriveInput / FromField / FromVariant / FromTypeParam / FromAttributes)
+
+#[derive(Clone, Debug, PartialEq)]
+pub enum ElemKind {
+    DeriveInput,
+    Field,
+    Variant,
+    TypeParam,
+    Attributes,
+}
+
+#[derive(Clone, Debug, PartialEq)]
+pub enum Forward {
+    None,
+    All,
+    Only(Vec<&'static str>),
+}
+
+#[derive(Clone, Debug, PartialEq)]
+pub enum AttrsField {
+    Plain,
+    /// `#[darling(with = aw::<site>)] attrs`
+    With(u32),
+}
+
+#[derive(Clone, Debug, PartialEq)]
+pub enum BodyLeaf {
+    /// a derived element-level receiver, by name
+    Recv(&'static str),
+    /// `FP<site>` probe
+    Probe(u32),
+    /// `()`
+    Unit,
+}
+
+#[derive(Clone, Debug, PartialEq)]
+pub enum GenericsDesc {
+    /// `ast::Generics<ast::GenericParam<TR>>`
+    Full(&'static str),
+    /// `GP<site>`
+    Probe(u32),
+}
+
+#[derive(Clone, Debug, PartialEq)]
+pub enum DataDesc {
+    /// `ast::Data<V, F>`
+    Data { variant: BodyLeaf, field: BodyLeaf },
+    /// `#[darling(with = dw::<site>)] data`
+    With(u32),
+}
+
+/// Shapes accepted: (named, tuple, newtype, unit)
+#[derive(Clone, Debug, PartialEq, Default)]
+pub struct ShapeSetDesc {
+    pub named: bool,
+    pub tuple: bool,
+    pub newtype: bool,
+    pub unit: bool,
+}
+
+impl ShapeSetDesc {
+    pub fn is_empty(&self) -> bool {
+        !(self.named || self.tuple || self.newtype || self.unit)
+    }
+    /// shape: "named" | "tuple" | "newtype" | "unit"
+    pub fn accepts(&self, shape: &str) -> bool {
+        match shape {
+            "named" => self.named,
+            "tuple" => self.tuple,
+            "unit" => self.unit,
+            _ => self.newtype || self.tuple,
+        }
+    }
+}
+
+#[derive(Clone, Debug, PartialEq)]
+pub enum Supports {
+    Any,
+    Sets { structs: ShapeSetDesc, enums: ShapeSetDesc },
+    /// FromVariant: one set
+    Variant(ShapeSetDesc),
+}
+
+#[derive(Clone, Debug)]
+pub struct ElemDesc {
+    pub name: &'static str,
+    pub kind: ElemKind,
+    pub attr_names: Vec<&'static str>,
+    pub forward: Forward,
+    pub attrs_field: Option<AttrsField>,
+    pub fields: Vec<FieldDesc>,
+    pub allow_unknown: bool,
+    pub from_ident: Option<u32>,
+    pub supports: Option<Supports>,
+    pub has_ident: bool,
+    pub generics: Option<GenericsDesc>,
+    pub data: Option<DataDesc>,
+    /// FromVariant `fields: ast::Fields<F>`
+    pub variant_fields: Option<BodyLeaf>,
+    /// newtype over another element receiver
+    pub newtype_of: Option<&'static str>,
+}
+
+pub fn elem(name: &'static str, kind: ElemKind, attr_names: Vec<&'static str>, fields: Vec<FieldDesc>) -> ElemDesc {
+    ElemDesc {
+        name,
+        kind,
+        attr_names,
+        forward: Forward::None,
+        attrs_field: None,
+        fields,
+        allow_unknown: false,
+        from_ident: None,
+        supports: None,
+        has_ident: false,
+        generics: None,
+        data: None,
+        variant_fields: None,
+        newtype_of: None,
+    }
+}
+
+pub fn elems() -> &'static BTreeMap<&'static str, ElemDesc> {
+    static TABLE: std::sync::OnceLock<BTreeMap<&'static str, ElemDesc>> = std::sync::OnceLock::new();
+    TABLE.get_or_init(elem_receivers)
+}
+
+fn set(named: bool, tuple: bool, newtype: bool, unit: bool) -> ShapeSetDesc {
+    ShapeSetDesc { named, tuple, newtype, unit }
+}
+
+pub fn elem_receivers() -> BTreeMap<&'static str, ElemDesc> {
+    use ElemKind::*;
+    let mut m = BTreeMap::new();
+    let mut add = |d: ElemDesc| {
+        m.insert(d.name, d);
+    };
+    add(ElemDesc { has_ident: true, ..elem("FR1", Field, vec!["a"], vec![f("p", opt(pm(3101))), f("q", pm(3102))]) });
+    add(ElemDesc {
+        forward: Forward::All,
+        attrs_field: Some(AttrsField::Plain),
+        ..elem("FR2", Field, vec!["a", "b"], vec![f("rest", r("S1")).flatten()])
+    });
+    add(ElemDesc {
+        forward: Forward::Only(vec!["doc", "keep"]),
+        attrs_field: Some(AttrsField::With(3300)),
+        ..elem("FR3", Field, vec!["a"], vec![f("p", opt(pm(3301)))])
+    });
+    add(ElemDesc {
+        has_ident: true,
+        variant_fields: Some(BodyLeaf::Recv("FR1")),
+        ..elem("VR1", Variant, vec!["a"], vec![f("p", opt(pm(3401)))])
+    });
+    add(ElemDesc {
+        has_ident: true,
+        variant_fields: Some(BodyLeaf::Probe(3501)),
+        supports: Some(Supports::Variant(set(false, false, true, true))),
+        ..elem("VR2", Variant, vec!["a"], vec![f("q", pm(3502))])
+    });
+    add(ElemDesc { has_ident: true, ..elem("TR1", TypeParam, vec!["a"], vec![f("p", opt(pm(3601)))]) });
+    add(ElemDesc {
+        has_ident: true,
+        generics: Some(GenericsDesc::Full("TR1")),
+        data: Some(DataDesc::Data { variant: BodyLeaf::Recv("VR1"), field: BodyLeaf::Recv("FR1") }),
+        ..elem("DI1", DeriveInput, vec!["a", "b"], vec![f("s", r("S1")), f("p", opt(pm(3701)))])
+    });
+    add(ElemDesc {
+        forward: Forward::All,
+        attrs_field: Some(AttrsField::Plain),
+        supports: Some(Supports::Sets { structs: set(true, false, false, false), enums: set(false, false, true, true) }),
+        data: Some(DataDesc::Data { variant: BodyLeaf::Recv("VR2"), field: BodyLeaf::Recv("FR2") }),
+        ..elem("DI2", DeriveInput, vec!["a"], vec![f("q", pm(3801))])
+    });
+    add(ElemDesc {
+        supports: Some(Supports::Any),
+        generics: Some(GenericsDesc::Probe(3901)),
+        data: Some(DataDesc::With(3900)),
+        ..elem("DI3", DeriveInput, vec!["a"], vec![f("p", opt(pm(3902)))])
+    });
+    add(ElemDesc { has_ident: true, from_ident: Some(4000), ..elem("DI4", DeriveInput, vec!["a"], vec![f("p", pm(4001)), f("o", opt(pm(4002)))]) });
+    add(ElemDesc { newtype_of: Some("DI1"), ..elem("DI5", DeriveInput, vec![], vec![]) });
+    add(ElemDesc {
+        supports: Some(Supports::Sets { structs: set(false, true, false, false), enums: set(false, false, false, false) }),
+        data: Some(DataDesc::Data { variant: BodyLeaf::Unit, field: BodyLeaf::Probe(4201) }),
+        ..elem("DI6", DeriveInput, vec!["a"], vec![f("p", opt(pm(4202)))])
+    });
+    add(elem(
+        "AT1",
+        Attributes,
+        vec!["a", "b"],
+        vec![f("p", pm(4301)), f("m", pm(4302)).multiple(), f("rest", r("S9")).flatten()],
+    ));
+    add(ElemDesc {
+        forward: Forward::Only(vec!["doc"]),
+        attrs_field: Some(AttrsField::Plain),
+        ..elem("AT2", Attributes, vec!["a"], vec![f("e", opt(r("E1")))])
+    });
+    m
+}
